@@ -25,6 +25,9 @@ OBJECTS = {
     "falsy": [Literal(""), Literal("0", datatype=URIRef(XSD + "integer"))],
     "longquote": [Literal('"""'), Literal("'''\\")],
     "lang": [Literal("chat", lang="fr"), Literal("chat")],
+    # the keyword of the syntax as ordinary text: in a literal, in an IRI, with braces around it
+    "graphword": [Literal("a bar graph { of it }"), URIRef(EX + "graph/GRAPH")],
+    "keywords": [Literal("INSERT DATA { GRAPH <x> { } } WHERE"), Literal("} GRAPH ?g {", lang="en")],
 }
 
 
